@@ -1196,6 +1196,22 @@ func (t *FnTrans) siteHook(kind string, in ssa.Instruction, b *ssa.BasicBlock, i
 		for _, c := range s.Assumes {
 			t.assumps = append(t.assumps, Assump{Guard: reach, F: Formula{Clause: c, Env: env}, Why: "site assume (UNCHECKED)"})
 		}
+		for _, h := range s.Hints {
+			func() {
+				defer func() {
+					if r := recover(); r != nil {
+						if ee, ok := r.(*exprError); ok {
+							t.contractErrors = append(t.contractErrors, fmt.Sprintf("%s:%d: %s", h.File, h.Line, ee.msg))
+							return
+						}
+						panic(r)
+					}
+				}()
+				if term, ok := t.toIdx(env.eval(h.Expr)); ok {
+					t.idxTerms[term] = true
+				}
+			}()
+		}
 		for _, c := range s.Asserts {
 			lbl := c.Label
 			if lbl == "" {
